@@ -380,20 +380,32 @@ func (m iterModel) apply(st midStage) iterModel {
 			m.batches = [][]string{append([]string(nil), m.ids...)}
 		}
 	case midMerge:
-		// one record per input batch: the first record of the batch survives
+		// one record per non-empty input batch (its first record survives); an output batch
+		// gathers the records of 1+A consecutive input batches, empty ones included in the count
 		if m.batches == nil {
 			return m // not applicable (composition unknown): skipped when building too
 		}
-		out := []string{}
-		for _, b := range m.batches {
-			if len(b) > 0 {
-				out = append(out, b[0])
+		size := 1 + st.A
+		var nb [][]string
+		for i := 0; i < len(m.batches); i += size {
+			e := i + size
+			if e > len(m.batches) {
+				e = len(m.batches)
+			}
+			recs := []string{}
+			for _, b := range m.batches[i:e] {
+				if len(b) > 0 {
+					recs = append(recs, b[0])
+				}
+			}
+			if len(recs) > 0 {
+				nb = append(nb, recs)
 			}
 		}
-		m.ids = out
+		m.ids = flattenB(nb)
 		m.ordered = m.ordered && m.arrivalSorted
 		if m.ordered {
-			m.batches = regroup(m.ids, 1+st.A)
+			m.batches = nb
 		} else {
 			m.batches = nil
 		}
